@@ -2774,20 +2774,18 @@ FROM (
         has_ds_branch = any(t == _DATASET for t in then_types) or e_type == _DATASET
         if has_ds_branch:
             id_col = quote_name(source_ids[0])
-            filter_parts: List[str] = []
-            for i in range(len(node.cases)):
+            # Same priority as the value columns above: the branch that provides the value
+            # is the one that must have matched (a NULL condition falls through to the next).
+            filter_parts: List[str] = ["CASE"]
+            for i in reversed(range(len(node.cases))):
                 if then_types[i] == _DATASET:
                     match_check = f"{then_aliases[i]}.{id_col} IS NOT NULL"
                 else:
                     match_check = "TRUE"
-                filter_parts.append(f"({cond_exprs[i]} AND {match_check})")
-            # Else branch: applies when no condition is true
-            neg = " AND ".join(f"(NOT {c} OR {c} IS NULL)" for c in cond_exprs)
-            if e_type == _DATASET:
-                filter_parts.append(f"(({neg}) AND {e_alias}.{id_col} IS NOT NULL)")
-            else:
-                filter_parts.append(f"({neg})")
-            builder.where(" OR ".join(filter_parts))
+                filter_parts.append(f"WHEN {cond_exprs[i]} THEN {match_check}")
+            else_check = f"{e_alias}.{id_col} IS NOT NULL" if e_type == _DATASET else "TRUE"
+            filter_parts.append(f"ELSE {else_check} END")
+            builder.where(" ".join(filter_parts))
 
         return builder.build()
 
